@@ -8,3 +8,6 @@ import PvModel.Props.C22
 #print axioms Pv.C22_extension
 #print axioms Pv.C22_failed
 #print axioms Pv.C22_branch
+#print axioms Pv.C22_step_tree
+#print axioms Pv.C22_count_tree
+#print axioms Pv.C22_count_tree_init
